@@ -86,6 +86,8 @@ type sizeCap struct {
 	small int // usual maximum
 	big   int // occasional maximum
 	huge  int // rare maximum (thorough only)
+	// slowAPI: the property calls an API whose cost is quadratic in the node count
+	slowAPI bool
 }
 
 func caps() sizeCap {
@@ -530,6 +532,9 @@ func genKeysFam(t *rapid.T, fams []famWeight, sc sizeCap) ([]string, string) {
 			big = sc.huge
 		}
 		s := rapid.IntRange(2, maxS).Draw(t, "shortsize")
+		if s > 7 && sc.slowAPI && pickU(t, "slowapi", 25) != 0 {
+			s = 2 + s%6 // String() is quadratic in the node count: large trees only now and then
+		}
 		keys = genShortTarget(t, s, big)
 	default:
 		panic("unknown family " + name)
@@ -693,6 +698,7 @@ func genLoad(t *rapid.T) string {
 
 // genTrieCase draws the common part of a trie case.
 type trieGenOpt struct {
+	slowAPI   bool
 	encs      []string
 	complete  bool
 	forceRuns bool
@@ -706,7 +712,14 @@ func genTrieCase(t *rapid.T, g trieGenOpt) *Case {
 	if fams == nil {
 		fams = defaultFamilies
 	}
-	keys, fam := genKeysFam(t, fams, caps())
+	sc := caps()
+	if g.slowAPI {
+		sc.slowAPI = true
+		if sc.huge > 20000 {
+			sc.huge = 20000
+		}
+	}
+	keys, fam := genKeysFam(t, fams, sc)
 	c.Gen = fam
 	c.Keys = hexes(keys)
 	encs := g.encs
